@@ -49,7 +49,10 @@ PROP = dict(
           'iteration budget, per-thread role (group member 0..3, shared or '
           'private copy), three pool arrays from the shared array generator, '
           'per thread 1..8 operations (one of 33 codecs / scalar operations, '
-          'input selector)); non-trivial = '
+          'input selector), optionally a large-array phase: one pool array '
+          'stretched to 10001..65537 elements in one of four shapes, two '
+          'of 14 array operations run by 2..4 threads on that shared '
+          'input); non-trivial = '
           'at least two threads run the same codec on the same shared input '
           'concurrently (operation lists or hot loop); distinct by hash of '
           '(thread count, repeats, pool contents, hot-loop parameters, roles, '
@@ -91,7 +94,9 @@ PROP = dict(
                       'hot.array.helpers', 'hot.op.scalar.tagged',
                       'hot.op.scalar.external', 'hot.op.scalar.chained',
                       'hot.op.scalar.split', 'hot.op.packed12',
-                      'hot.op.bitstream'],
+                      'hot.op.bitstream', 'big.on', 'big.adaptive.auto',
+                      'big.adaptive.forced', 'big.pfor', 'big.dict',
+                      'big.len<=16384', 'big.len>32768'],
     assumptions=COMMON_ASSUME + [
         'the harness owns thread creation and the assignment of operations to '
         'threads; the operating system owns the schedule',
